@@ -22,7 +22,7 @@ for pid in ids:
         gm = dst + '/demo/go.mod'
         if os.path.exists(gm):
             t = open(gm).read()
-            t = re.sub(r'=> /tmp/wt\d*/C\d\d', '=> /repo', t)
+            t = re.sub(r'=> /tmp/wt[-\w]*/C\d\d', '=> /repo', t)
             open(gm, 'w').write(t)
         for root, _, files in os.walk(dst + '/demo'):
             for f in files:
